@@ -82,6 +82,17 @@ def apply_env(scenario):
         # the time zone of the simulated machine (POSIX TZ string: no zone database needed)
         os.environ['TZ'] = env['tz']
         time.tzset()
+    if env and env.get('lc_time'):
+        # the process has selected a non-English LC_TIME (locale.setlocale(LC_ALL, '') on a localised machine)
+        import locale
+        from . import build
+        loc_dir = build.ensure_locale()
+        if loc_dir:
+            os.environ['LOCPATH'] = loc_dir
+            try:
+                locale.setlocale(locale.LC_TIME, env['lc_time'])
+            except locale.Error:
+                pass
     if env and env.get('warn'):
         # the process turns DeprecationWarning into an error (python -W error::DeprecationWarning, pytest filterwarnings = error)
         import warnings
@@ -127,6 +138,8 @@ def gen_env(seed):
         env['optimize'] = 1          # python -O: assert statements are not executed
     if seeds.derive(seed, 'env-warn') % 16 == 0:
         env['warn'] = 'error::DeprecationWarning'
+    if seeds.derive(seed, 'env-lc') % 16 == 0:
+        env['lc_time'] = 'de_DE'     # a non-English LC_TIME (month and day names), compiled by sim.build.ensure_locale()
     return env
 
 
@@ -304,6 +317,7 @@ def _run_chunk(args):
         res['env_tz'] = scenario.get('env', {}).get('tz', '')
         res['env_opt'] = scenario.get('env', {}).get('optimize', 0)
         res['env_warn'] = 1 if scenario.get('env', {}).get('warn') else 0
+        res['env_lc'] = 1 if scenario.get('env', {}).get('lc_time') else 0
         res['wall'] = time.perf_counter() - t0
         out.append(res)
     return out
@@ -511,6 +525,8 @@ def main(check, argv=None):
             tz_runs['__opt__'] = tz_runs.get('__opt__', 0) + 1
         if r.get('env_warn'):
             tz_runs['__warn__'] = tz_runs.get('__warn__', 0) + 1
+        if r.get('env_lc'):
+            tz_runs['__lc__'] = tz_runs.get('__lc__', 0) + 1
         _merge(probes, r['probes'])
         _merge(ops, r['ops'])
         _merge(faults, r['faults'])
@@ -629,6 +645,7 @@ def main(check, argv=None):
                 'runs_per_simulated_time_zone': dict(sorted((k, v) for k, v in tz_runs.items() if not k.startswith('__'))),
                 'runs_with_assertions_stripped_python_O': tz_runs.get('__opt__', 0),
                 'runs_with_DeprecationWarning_as_error': tz_runs.get('__warn__', 0),
+                'runs_with_non_English_LC_TIME': tz_runs.get('__lc__', 0),
                 'known_findings_seen': sorted(known_seen),
                 'real_components': check.REAL,
                 'stub_components': check.STUB,
